@@ -117,6 +117,21 @@ def _solve_cvc5(formulas, timeout_ms):
         return f"unknown:cvc5-error:{type(e).__name__}:{str(e)[:80]}", None, time.time() - t0
 
 
+def _mentions_ufs(t, names):
+    if not names:
+        return False
+    seen, stack = set(), [t]
+    while stack:
+        x = stack.pop()
+        if x.get_id() in seen:
+            continue
+        seen.add(x.get_id())
+        if z3.is_app(x) and x.decl().name() in names:
+            return True
+        stack.extend(x.children())
+    return False
+
+
 def _conjuncts(g):
     out, stack = [], [g]
     while stack:
@@ -459,7 +474,7 @@ class Session:
                                 seconds=round(time.time() - t0, 3), solver_s=round(dt, 3),
                                 model=model_summary(model), _model=model, replay=replay,
                                 holes=[str(c) for c in combo] or None,
-                                abstraction_incomplete=any(term_contains(goal, r.sym) or any(term_contains(h, r.sym) for h in hyps) for r in ctx.reductions))
+                                abstraction_incomplete=any(term_contains(goal, r.sym) or any(term_contains(h, r.sym) for h in hyps) for r in ctx.reductions) or _mentions_ufs(goal, getattr(ctx, "abstract_ufs", ())))
         return self._record(oid, "undecided", function=function, what=what, reason=undecided,
                             seconds=round(time.time() - t0, 3))
 
